@@ -196,6 +196,17 @@ def run(c, prog, ctx):
     c.inst("R2.with-secrets-last", "vbf = last(value, abf, inputs' triples, other outputs' triples); committed with and returned", r == ["std::result::Result::Ok{tuple{%s, %s}}" % (WTS, LAST)], "returns %s" % [x[:300] for x in r], WL.f.where(), WL.f.path)
     from .c09 import check_last
     check_last(c, prog, "R2.last-formula")
+    # "blinding succeeds ... for all value magnitudes the rangeproof parameters admit": the constructors fail only where a callee
+    # fails (explicit-value/asset expectations through ok_or, libsecp's proof functions through `?`); none of them returns an
+    # error decided by a comparison on the amount, so the admitted range is libsecp's
+    from ..analysis import err_returns as _errs
+    for fnp in ("blind::<impl confidential::Value>::blind_with_shared_secret", "blind::<impl confidential::Value>::blind", "blind::<impl confidential::Asset>::blind",
+                "blind::<impl transaction::TxOut>::with_secrets_last", "blind::<impl transaction::TxOut>::with_txout_secrets",
+                "blind::<impl transaction::TxOut>::new_not_last_confidential", "blind::<impl transaction::TxOut>::new_last_confidential"):
+        fx = prog.fn(fnp)
+        er = [(str(e[1])[:70], [(d[:80], l) for d, l in e[2]][-1:]) for e in _errs(fx.body)]
+        c.inst("R4.no-amount-refusal", fnp.split("::")[-1] + " (" + fnp.split("impl ")[1].split(">")[0] + ")", not er, "explicit error returns %s" % er[:2], fx.where(), fnp)
+    c.floor("R4.no-amount-refusal", 7)
     from .predicates import confidential_views
     confidential_views(c, prog, "R8.confidential-views")
     c.floor("R8.confidential-views", 21)
